@@ -66,7 +66,10 @@ struct _successor_receiver<Operation, Values...>::type {
   }
 
   template <typename... SuccessorValues>
-  void set_value(SuccessorValues&&... values) && noexcept {
+  void set_value(SuccessorValues&&... values) && noexcept(
+      is_nothrow_receiver_of_v<
+          typename Operation::receiver_type,
+          SuccessorValues...>) {
     UNIFEX_ASSERT_CLEANUP(op_.cleanup_ == expectedCleanup);
 
     unifex::set_value(
